@@ -143,7 +143,7 @@ func runC16(args []string) error {
 	}
 	r := rf.rng()
 	sum := &Summary{Engine: "c16", Seed: rf.Seed,
-		Rule: "enumerated field combinations of Range/IterateRange/Put/DeleteRange/Txn requests (empty, boundary and oversize byte fields around the 1024-byte key and 2 MiB value limits, negative limit, both flags, each revision filter, unknown/empty table, empty oneofs, operations nested in transactions with invalid keys/values) through the real regattaserver.KVServer and table.ActiveTable over a simulated Raft host with real state machines; tables API requests through TablesServer/ReadonlyTablesServer; observed: gRPC status code, table content before/after every rejected request, that the handler returned (panics are caught and reported); plus a malformed stream of random field garbage; distinct = distinct requests; non-trivial = request violating exactly one constraint"}
+		Rule: "enumerated field combinations of Range/IterateRange/Put/DeleteRange/Txn requests (empty, boundary and oversize byte fields around the 1024-byte key and 2 MiB value limits, negative limit, both flags, each revision filter, unknown/empty table, unknown tables with non-UTF-8 names, empty oneofs, operations nested in transactions with invalid keys/values) through the real regattaserver.KVServer and table.ActiveTable over a simulated Raft host with real state machines; tables API requests through TablesServer/ReadonlyTablesServer; observed: gRPC status code, table content before/after every rejected request, that the handler returned (panics are caught and reported); plus a malformed stream of random field garbage; distinct = distinct requests; non-trivial = request violating exactly one constraint"}
 	cf := &CasesFile{Requires: []string{"Model.Bytes", "Model.Obs", "Model.Validate", "Run.C16Run"}, CaseType: "c16case", Check: "c16_check", Show: "c16_model"}
 	h, err := newSimHost(rand.New(rand.NewSource(rf.Seed)), 1)
 	if err != nil {
@@ -359,6 +359,43 @@ func runC16(args []string) error {
 			}
 		}
 		hk.Inc("tables")
+	}
+	// ---- table names are bytes: unknown tables whose name is not valid UTF-8 (or holds control characters) are
+	// unknown tables like any other ----
+	for _, name := range [][]byte{{'t', 0xff, 0xfe, 'x'}, []byte("caf\xe9"), {0}, []byte("t\n"), {0xc3, 0x28}, bytes.Repeat([]byte{0xff}, 300)} {
+		in := map[string]any{"api": "requests to an unknown table with an odd name", "table_hex": fmt.Sprintf("%x", name)}
+		calls := map[string]func() error{
+			"range": func() error {
+				_, err := srv.Range(ctx, &regattapb.RangeRequest{Table: name, Key: []byte("k")})
+				return err
+			},
+			"iterate": func() error {
+				return srv.IterateRange(&regattapb.RangeRequest{Table: name, Key: []byte("k")}, &rangeStream{})
+			},
+			"put": func() error {
+				_, err := srv.Put(ctx, &regattapb.PutRequest{Table: name, Key: []byte("k"), Value: []byte("v")})
+				return err
+			},
+			"delete": func() error {
+				_, err := srv.DeleteRange(ctx, &regattapb.DeleteRangeRequest{Table: name, Key: []byte("k")})
+				return err
+			},
+			"txn": func() error {
+				_, err := srv.Txn(ctx, &regattapb.TxnRequest{Table: name, Success: []*regattapb.RequestOp{{Request: &regattapb.RequestOp_RequestPut{RequestPut: &regattapb.RequestOp_Put{Key: []byte("k"), Value: []byte("v")}}}}})
+				return err
+			},
+		}
+		for _, api := range []string{"range", "iterate", "put", "delete", "txn"} {
+			in2 := map[string]any{"call": api}
+			for k, v := range in {
+				in2[k] = v
+			}
+			if code := guard("odd-table-"+api, in2, calls[api]); code != int64(codes.NotFound) && code != -1 {
+				sum.violate(c, "unknown table not refused with NotFound", in2, fmt.Sprint(codes.Code(code)))
+			}
+			sum.Evaluations++
+		}
+		hk.Inc("odd-table-names")
 	}
 	// ---- malformed stream: random garbage in every field; only survival and "no effect on rejection" are checked ----
 	ng := rf.count(150, 3000)
